@@ -111,6 +111,10 @@ def run_impl(cfg, workdir, sampler_hook=None, reuse=None, tag="run"):
     target = FnTarget(d, seed=tseed, special_rate=cfg["special"], glog=glog,
                       misfit_palette=[float("nan"), float("inf"), float("-inf"), 1e300, 700.0])
     target.script = cfg.get("mis_script")
+    if cfg.get("box") is not None:
+        # bounds on the target itself (and its misfit is +inf outside, as for every hmclab distribution)
+        target.box = cfg["box"]
+        target.update_bounds(numpy.array(cfg["box"][0], dtype=float).reshape(d, 1), numpy.array(cfg["box"][1], dtype=float).reshape(d, 1))
     m0 = numpy.array(cfg["m0"], dtype=float).reshape(d, 1)
     # the code refuses NaN/inf initial misfits: pick the first admissible seed deterministically
     while not math.isfinite(target.misfit_value(m0)):
